@@ -426,6 +426,31 @@ class Engine:
             return o[1]
         return ("addr", o)
 
+    @staticmethod
+    def std_array_extent(t):
+        """N of a std::array<T, N> type, else None"""
+        import re
+        if not t or t.get("k") != "rec":
+            return None
+        m = re.match(r"^(?:const |volatile )*std::array<.*, (\d+)>$", (t.get("c") or "").strip())
+        return int(m.group(1)) if m else None
+
+    @staticmethod
+    def elem_pos(p):
+        """(array lvalue, index term) when the pointer value p is the address of an array element (a decayed array is element 0)"""
+        if isinstance(p, tuple) and p[:1] == ("decay",):
+            return p[1], C(0)
+        if isinstance(p, tuple) and p[:1] == ("addr",) and isinstance(p[1], tuple) and p[1][:1] == ("idx",):
+            return p[1][1], p[1][2]
+        return None
+
+    def elem_advance(self, p, n):
+        """pointer to an array element moved by n elements stays a pointer to an element of the same array: &A[i] + n == &A[i+n]"""
+        ep = self.elem_pos(p)
+        if ep is None:
+            return None
+        return ("addr", ("idx", ep[0], lin("+", ep[1], n)))
+
     def is_rec(self, t):
         return bool(t) and t.get("k") == "rec"
 
@@ -483,7 +508,9 @@ class Engine:
                 outs = []
                 for s, lv in self.ev_lv(st, fr, e["e"]):
                     old = self.load(s, lv)
-                    new = lin("+" if op == "++" else "-", old, C(1))
+                    new = self.elem_advance(old, C(1 if op == "++" else -1))
+                    if new is None:
+                        new = lin("+" if op == "++" else "-", old, C(1))
                     self.store(s, lv, new, loc=e.get("loc"))
                     outs.append((s, old if e.get("post") else new))
                 return outs
@@ -623,7 +650,8 @@ class Engine:
             outs = []
             for s, lv in self.ev_lv(st, fr, e["e"]):
                 old = self.load(s, lv)
-                self.store(s, lv, lin("+" if e["op"] == "++" else "-", old, C(1)), loc=e.get("loc"))
+                new = self.elem_advance(old, C(1 if e["op"] == "++" else -1))
+                self.store(s, lv, new if new is not None else lin("+" if e["op"] == "++" else "-", old, C(1)), loc=e.get("loc"))
                 outs.append((s, lv))
             return outs
         if k == "idx":
@@ -798,6 +826,8 @@ class Engine:
             for s2, v in self.ev(s, self._fr(s, fr), e["r"]):
                 old = self.load(s2, lv, vol=bool(lt.get("vol")), loc=e.get("loc"), ty=lt)
                 new = self.binop(op, old, v)
+                if op in ("+", "-") and lt.get("k") == "ptr" and self.elem_pos(old) is not None:
+                    new = self.elem_advance(old, v if op == "+" else lin("-", C(0), v))
                 self.store(s2, lv, new, loc=e.get("loc"), vol=bool(lt.get("vol")), ty=lt)
                 outs.append((s2, lv if want_lv else new))
         return outs
@@ -876,6 +906,19 @@ class Engine:
             # pointer arithmetic on typed pointers: scale by pointee size
             lt = e["l"].get("t") or {}
             rt = e["r"].get("t") or {}
+            if op in ("+", "-") and lt.get("k") == "ptr" and rt.get("k") in ("int", "bool", "enum") and self.elem_pos(l) is not None:
+                outs.append((s, self.elem_advance(l, r if op == "+" else lin("-", C(0), r))))
+                continue
+            if op == "+" and rt.get("k") == "ptr" and lt.get("k") in ("int", "bool", "enum") and self.elem_pos(r) is not None:
+                outs.append((s, self.elem_advance(r, l)))
+                continue
+            if op == "-" and lt.get("k") == "ptr" and rt.get("k") == "ptr" and self.elem_pos(l) is not None and self.elem_pos(r) is not None and self.elem_pos(l)[0] == self.elem_pos(r)[0]:
+                outs.append((s, lin("-", self.elem_pos(l)[1], self.elem_pos(r)[1])))
+                continue
+            if op in ("==", "!=", "<", "<=", ">", ">=") and self.elem_pos(l) is not None and self.elem_pos(r) is not None and self.elem_pos(l)[0] == self.elem_pos(r)[0]:
+                # two positions in one array compare like their indices
+                outs.append((s, self.binop(op, self.elem_pos(l)[1], self.elem_pos(r)[1])))
+                continue
             if op in ("+", "-") and lt.get("k") == "ptr" and rt.get("k") in ("int", "bool", "enum"):
                 sz = lt.get("ptesz")
                 if sz is None:
@@ -962,6 +1005,16 @@ class Engine:
             return self.ev_lv(st, fr, args[0])
         if name == "std::addressof" and len(args) == 1:
             return [(s, self.addr(lv)) for s, lv in self.ev_lv(st, fr, args[0])]
+        if name in ("std::begin", "std::end", "std::cbegin", "std::cend", "std::data", "std::size", "std::ssize") and len(args) == 1 and (self._strip_e(args[0]).get("t") or {}).get("k") == "array" \
+                and (self._strip_e(args[0]).get("t") or {}).get("n") is not None:
+            # range access on a built-in array: positions are element addresses of that array
+            n_ = self._strip_e(args[0])["t"]["n"]
+            sh_ = name.split("::")[-1]
+            return [(s, C(n_) if sh_ in ("size", "ssize") else self.addr(("idx", lv, C(n_ if sh_ in ("end", "cend") else 0)))) for s, lv in self.ev_lv(st, fr, args[0])]
+        if name in ("std::begin", "std::end", "std::cbegin", "std::cend", "std::data", "std::size", "std::ssize") and len(args) == 1 and self.std_array_extent(self._strip_e(args[0]).get("t")) is not None:
+            n_ = self.std_array_extent(self._strip_e(args[0]).get("t"))
+            sh_ = name.split("::")[-1]
+            return [(s, C(n_) if sh_ in ("size", "ssize") else self.addr(("idx", lv, C(n_ if sh_ in ("end", "cend") else 0)))) for s, lv in self.ev_lv(st, fr, args[0])]
         if name == "std::exchange" and len(args) == 2:
             # old = obj; obj = new_value; return old
             outs = []
@@ -1009,9 +1062,10 @@ class Engine:
             r = ("idx", self.deref(thisv), idxv)
             self.emit(st, "CALL", name, list(av), thisv, loc=loc, extra={"ret": r, "fnid": (e.get("fn") or {}).get("id"), "rt": e.get("t"), "argvals": [idxv], "native": True})
             return [(st, r)]
-        if name and name.startswith("std::array<") and short == "data" and not av and thisv is not None:
-            # address of element 0 (pointer arithmetic on it is element indexing)
-            r = self.addr(("idx", self.deref(thisv), C(0)))
+        if name and name.startswith("std::array<") and short in ("data", "begin", "cbegin", "end", "cend") and not av and thisv is not None and \
+                (short in ("data", "begin", "cbegin") or self.std_array_extent({"k": "rec", "c": name[:name.rfind("::")]}) is not None):
+            # address of element 0 / one past the last element (pointer arithmetic on it is element indexing)
+            r = self.addr(("idx", self.deref(thisv), C(0 if short in ("data", "begin", "cbegin") else self.std_array_extent({"k": "rec", "c": name[:name.rfind("::")]}))))
             self.emit(st, "CALL", name, [], thisv, loc=loc, extra={"ret": r, "fnid": (e.get("fn") or {}).get("id"), "rt": e.get("t"), "argvals": [], "native": True})
             return [(st, r)]
         # abstract iterator positions (see exec_iterator_loop)
@@ -1631,12 +1685,14 @@ class Engine:
                     if self.assume(qa2, neg(truthy(c)), s.get("loc"), kind="loop-exit"):
                         outs.append(qa2)
             # --- path B: one generic iteration
+            induct = self.lockstep_vars(q, f, s, kind)
             for d in mods:
                 lv = f.binds.get(d)
                 if lv is not None:
                     q.mem[lv] = ("havoc", next(self.uid), lv[2] if len(lv) > 2 else "v")
             q.loopdepth += 1
             self.emit(q, "LOOP_BEGIN", loc=s.get("loc"), extra={"range": s.get("range") is not None})
+            self.apply_lockstep(q, f, induct, s)
             iters = [q]
             if kind == "forrange":
                 iters = []
@@ -1665,11 +1721,11 @@ class Engine:
                     if q3.status == "run":
                         if s.get("inc") is not None and not broke:
                             for q4, _ in self.ev(q3, self._fr(q3, fr), s["inc"]):
-                                self._loop_end(q4, fr, mods, s, outs)
+                                self._loop_end(q4, fr, mods, s, outs, induct=induct)
                         else:
                             # leaving through `break`: this WAS the last iteration, so what it stored stands (the havoc at loop entry already
                             # accounts for all earlier iterations); only a normal end of the body may be followed by further iterations
-                            self._loop_end(q3, fr, mods, s, outs, havoc=not broke)
+                            self._loop_end(q3, fr, mods, s, outs, havoc=not broke, induct=induct)
                     else:
                         q3.loopdepth -= 1
                         outs.append(q3)
@@ -1759,7 +1815,50 @@ class Engine:
                         outs.append(q3)
         return outs
 
-    def _loop_end(self, q, fr, mods, s, outs, havoc=True):
+    def lockstep_vars(self, q, f, s, kind):
+        """Variables of a `for` loop that its increment expression advances by exactly one per iteration (`++a, ++b`) and that nothing else
+        in the loop modifies: after k iterations each holds its pre-loop value advanced by k, for ONE k common to all of them.  Only used
+        when at least one of them walks an array by pointer (pre-loop value &A[i]): {decl id: (pre-loop value, +1 | -1)}, else {}."""
+        if kind != "for" or s.get("inc") is None:
+            return {}
+        parts, todo = [], [s["inc"]]
+        while todo:
+            x = self._strip_e(todo.pop())
+            if isinstance(x, dict) and x.get("k") == "bin" and x.get("op") == ",":
+                todo += [x["r"], x["l"]]
+            else:
+                parts.append(x)
+        steps = {}
+        for x in parts:
+            if not (isinstance(x, dict) and x.get("k") == "un" and x.get("op") in ("++", "--") and isinstance(x.get("e"), dict) and x["e"].get("k") == "ref") or x["e"]["d"] in steps:
+                return {}
+            steps[x["e"]["d"]] = 1 if x["op"] == "++" else -1
+        other = set()
+        self.modified_vars(s.get("body"), other)
+        self.modified_vars(s.get("c"), other)
+        if other & set(steps):
+            return {}
+        out = {}
+        for d, st_ in steps.items():
+            lv = f.binds.get(d)
+            if lv is None or lv not in q.mem:
+                return {}
+            out[d] = (q.mem[lv], st_)
+        if not any(self.elem_pos(v) is not None for v, _ in out.values()):
+            return {}
+        return out
+
+    def apply_lockstep(self, q, f, induct, s):
+        if not induct:
+            return
+        k = ("havoc", next(self.uid), "k")
+        self.emit(q, "COUNTER", k, loc=s.get("loc"))
+        for d, (v0, st_) in induct.items():
+            n = k if st_ == 1 else lin("-", C(0), k)
+            v = self.elem_advance(v0, n)
+            q.mem[f.binds[d]] = v if v is not None else lin("+", v0, n)
+
+    def _loop_end(self, q, fr, mods, s, outs, havoc=True, induct=None):
         f = self._fr(q, fr)
         for d in (mods if havoc else ()):
             lv = f.binds.get(d)
@@ -1767,6 +1866,8 @@ class Engine:
                 q.mem[lv] = ("havoc", next(self.uid), lv[2] if len(lv) > 2 else "v")
         self.emit(q, "LOOP_END", loc=s.get("loc"))
         q.loopdepth -= 1
+        if havoc:
+            self.apply_lockstep(q, f, induct, s)
         if havoc and s.get("s") in ("for", "while") and s.get("c") is not None and not getattr(self, "_in_exit_cond", False):
             # the loop was left normally: in the state after its last iteration the condition is false
             self._in_exit_cond = True
